@@ -131,7 +131,20 @@ def solve_one(ob, timeout_ms=10000, use_cvc5=True, cross=False, finite=True, ski
             s2.set("timeout", min(timeout_ms, 5000))
             for f in finite_instance(ob.assumptions, ob.goal):
                 s2.add(f)
-            if s2.check() == z3.sat:
+            r2 = s2.check()
+            if r2 == z3.unknown:
+                # still weaker: drop every quantified assumption (candidate only, like the above)
+                from .interp import has_quant
+
+                if not has_quant(ob.goal):
+                    s2 = z3.Solver()
+                    s2.set("timeout", min(timeout_ms, 5000))
+                    for a in ob.assumptions:
+                        if not has_quant(a):
+                            s2.add(a)
+                    s2.add(z3.Not(ob.goal))
+                    r2 = s2.check()
+            if r2 == z3.sat:
                 ob.verdict = "refuted"
                 ob.via = "finite-instantiation"
                 ob.model = s2.model()
